@@ -30,30 +30,44 @@ Definition fixed_reported (fx : fixrec) (allp : list param) (p : param -> D) (cv
 Section SE.
 Variables (nt : nat) (x : list D) (secs : list (nat * list stretch)) (tas : list D).
 Variables (Tref ginv : list (list D)) (c273 : D) (st ast sv av Wp I : list (list D)) (wa : bool) (fx : fixrec).
+Variables (ms : list (stretch * stretch * bool)) (Wpm : list (list D)).   (* matching sections and their inflated weights (pair, time) *)
 Variables (yimpl wimpl pval : list D) (pcov : list (list D)).
 Let xsQ := map D2Q x.
 Let nx := length x.
 Let nta := length tas.
 Let locs := loc_bath xsQ secs.
 Let nxs := length locs.
+Let pairs := match_pairs xsQ ms.
+Let nm := length pairs.
 Let cols := cols_se nt nx nta wa.
 Let cols' := filter (fun a => negb (isfx fx a)) cols.
 Let lay := layout_se (Z.of_nat nt) (Z.of_nat nx) (Z.of_nat nta) wa.
 Let a2 := @at2 D dzero.
 Let cellw (order : nat -> nat -> nat -> nat * nat) (r : nat) : D := let c := order nxs nt r in a2 Wp (fst (nth (fst c) locs (0, 0)%nat)) (snd c).
-Let rows_with (order : nat -> nat -> nat -> nat * nat) : list drow := drows_se nt locs x (acting x tas) ginv I wa (cellw order).
+Let cellwm (order : nat -> nat -> nat -> nat * nat) (r : nat) : D := let c := order nm nt r in a2 Wpm (fst c) (snd c).
+Let rows_with (order : nat -> nat -> nat -> nat * nat) : list drow :=
+  drows_se nt locs x (acting x tas) ginv I wa (cellw order) ++ drows_m nt x (acting x tas) I nta pairs (cellwm order).
+(* measurement variance of a matching row = sum of the variances of its two cells, as one fraction *)
+Let rawvar2 (i0 i1 t : nat) : D * D :=
+  let a := rawvar (a2 st i0 t) (a2 ast i0 t) (a2 sv i0 t) (a2 av i0 t) in let b := rawvar (a2 st i1 t) (a2 ast i1 t) (a2 sv i1 t) (a2 av i1 t) in
+  (dadd (dmul (fst a) (snd b)) (dmul (fst b) (snd a)), dmul (snd a) (snd b)).
 (* raw measurement variance of the observation of row r = t*nxs + j *)
 Let raws : list (D * D) :=
-  flat_map (fun t => map (fun ib => rawvar (a2 st (fst ib) t) (a2 ast (fst ib) t) (a2 sv (fst ib) t) (a2 av (fst ib) t)) locs) (seq 0 nt).
+  flat_map (fun t => map (fun ib => rawvar (a2 st (fst ib) t) (a2 ast (fst ib) t) (a2 sv (fst ib) t) (a2 av (fst ib) t)) locs) (seq 0 nt) ++
+  flat_map (fun t => map (fun pr => rawvar2 (fst pr) (snd pr) t) pairs) (seq 0 nt).
 Let uniform : bool :=
-  Nat.eqb nt 1 || Nat.eqb nxs 1 ||
-  match locs with [] => true | (i0, _) :: _ => forallb (fun ib => forallb (fun t => deq (a2 Wp (fst ib) t) (a2 Wp i0 0%nat)) (seq 0 nt)) locs end.
+  (Nat.eqb nt 1 || Nat.eqb nxs 1 ||
+   match locs with [] => true | (i0, _) :: _ => forallb (fun ib => forallb (fun t => deq (a2 Wp (fst ib) t) (a2 Wp i0 0%nat)) (seq 0 nt)) locs end)
+  && (Nat.eqb nm 0 || Nat.eqb nt 1 || Nat.eqb nm 1).
 
 (* the faithful model of the code (finding F1): the measurement variance is read x-major (cell (r / nt, r mod nt)) while the
    variance added for the fixed parameters belongs to row r *)
 Let raw_code (r : nat) : D * D :=
-  let c := cell_x_major nxs nt r in let i := fst (nth (fst c) locs (0, 0)%nat) in
-  rawvar (a2 st i (snd c)) (a2 ast i (snd c)) (a2 sv i (snd c)) (a2 av i (snd c)).
+  if (r <? nxs * nt)%nat then
+    let c := cell_x_major nxs nt r in let i := fst (nth (fst c) locs (0, 0)%nat) in
+    rawvar (a2 st i (snd c)) (a2 ast i (snd c)) (a2 sv i (snd c)) (a2 av i (snd c))
+  else
+    let c := cell_x_major nm nt (r - nxs * nt) in let pr := nth (fst c) pairs (0, 0)%nat in rawvar2 (fst pr) (snd pr) (snd c).
 Definition with_weights (rows : list drow) (w : list D) : list drow :=
   map (fun rw => {| kform := kform (fst rw); kobs := kobs (fst rw); kwgt := snd rw |}) (combine rows w).
 
